@@ -2,7 +2,7 @@
    function of (previous configuration, change).  Lemmas and theorems about M/Raft.v.
    Pinned statements are in Props/C09.v. *)
 From RV Require Import Base.Prelude Base.IdSet M.Util M.Proto M.MemStorage M.Inflights
-  M.Progress M.RaftLog M.Quorum M.ConfChange M.Msg M.Raft M.RaftProofs.
+  M.Progress M.RaftLog M.Quorum M.ConfChange M.Msg M.Raft M.RawNode M.RaftProofs.
 From RecordUpdate Require Import RecordSet.
 Import RecordSetNotations.
 
@@ -1932,6 +1932,412 @@ Proof.
   - eapply step_candidate_LInv; [exact H|congruence|exact Hb1].
   - eapply step_leader_LInv; [exact H|apply Hinv1; exact Es|exact Es].
   - eapply step_candidate_LInv; [exact H|congruence|exact Hb1].
+Qed.
+
+(* a leader handling a term-less (local) message needs no LogBounded *)
+Lemma step_leader_local_LInv r m r' c :
+  r_state r = Leader -> m_term m = 0 -> step r m = Ok (r', c) -> LInv r -> LInv r'.
+Proof.
+  intros Hs Ht H Hinv. unfold step in H. rewrite Ht in H. change (0 =? 0) with true in H.
+  cbn [bind] in H.
+  destruct (m_type m =? MsgHup).
+  { inv_bind H. inversion H; subst. unfold hup, is_leader in Hx. rewrite Hs in Hx. cbn in Hx.
+    inversion Hx; subst. exact Hinv. }
+  match type of H with (if ?c then _ else _) = _ => destruct c end.
+  { inv_bind H. inv_bind H.
+    match type of H with (if ?c then _ else _) = _ => destruct c end.
+    - inv_bind H. apply send_fr in Hx1.
+      destruct (m_type m =? MsgRequestVote); inversion H; subst.
+      + eapply fr_LInv; [|exact Hinv]. eapply fr_trans; [exact Hx1|]. fr_solve.
+      + eapply fr_LInv; eassumption.
+    - inv_bind H. inv_bind H. inv_bind H. inversion H; subst. apply send_fr in Hx2.
+      eapply maybe_commit_by_vote_LInv; [eassumption|]. eapply fr_LInv; eassumption. }
+  rewrite Hs in H. eapply step_leader_LInv; [exact H|apply Hinv; exact Hs|exact Hs].
+Qed.
+
+(* --- ticks --- *)
+
+Theorem tick_LInv r r' b :
+  tick r = Ok (r', b) -> LogBounded (r_log r) -> LInv r -> LInv r'.
+Proof.
+  intros H Hb Hinv. unfold tick in H.
+  assert (Hel : r_state r <> Leader -> tick_election r = Ok (r', b) -> LInv r').
+  { intros Hs He. unfold tick_election in He.
+    match type of He with (if ?c then _ else _) = _ => destruct c end.
+    - inversion He; subst. apply not_leader_LInv. exact Hs.
+    - inv_bind He. inversion He; subst. destruct x as [r1 c1]. cbn [fst].
+      eapply step_LInv; [exact Hx|exact Hb|apply not_leader_LInv; exact Hs]. }
+  destruct (r_state r) eqn:Es; try (apply Hel; [congruence|exact H]).
+  clear Hel. unfold tick_heartbeat in H. inv_bind H. destruct x as [r1 hr].
+  set (r0 := r <| r_heartbeat_elapsed := r_heartbeat_elapsed r + 1 |>
+               <| r_election_elapsed := r_election_elapsed r + 1 |>) in *.
+  assert (H0 : fr r r0) by (unfold r0; fr_solve).
+  assert (Hinv0 : LInv r0) by (eapply fr_LInv; eassumption).
+  assert (Hinv1 : LInv r1).
+  { destruct (r_election_timeout r0 <=? r_election_elapsed r0); [|inversion Hx; subst; exact Hinv0].
+    inv_bind Hx. destruct x as [ra ha]. inversion Hx; subst. clear Hx.
+    assert (Hra : LInv ra).
+    { destruct (r_check_quorum (r0 <| r_election_elapsed := 0 |>)).
+      - inv_bind Hx0. inversion Hx0; subst. destruct x as [rb cb]. cbn [fst].
+        eapply step_leader_local_LInv; [| |exact Hx|].
+        + cbn. exact Es.
+        + reflexivity.
+        + eapply fr_LInv; [|exact Hinv0]. fr_solve.
+      - inversion Hx0; subst. eapply fr_LInv; [|exact Hinv0]. fr_solve. }
+    destruct (is_leader ra && _); [|exact Hra].
+    eapply fr_LInv; [|exact Hra]. fr_solve. }
+  destruct (negb (is_leader r1)) eqn:El; [inversion H; subst; exact Hinv1|].
+  destruct (r_heartbeat_timeout r1 <=? r_heartbeat_elapsed r1); [|inversion H; subst; exact Hinv1].
+  inv_bind H. inversion H; subst. destruct x as [rb cb]. cbn [fst].
+  eapply step_leader_local_LInv; [| |exact Hx0|].
+  - cbn. unfold is_leader in El. destruct (r_state r1); cbn in El; try discriminate. reflexivity.
+  - reflexivity.
+  - eapply fr_LInv; [|exact Hinv1]. fr_solve.
+Qed.
+
+(* --- weaker frame: role, pending_conf_index, log entries, applied (configuration and
+   promotable may change) --- *)
+Definition lk (r r' : raft) : Prop :=
+  r_state r' = r_state r /\ r_pending_conf_index r' = r_pending_conf_index r /\
+  same_ents (r_log r) (r_log r').
+
+Lemma fr_lk r r' : fr r r' -> lk r r'.
+Proof. intros (A & B & C0 & _). repeat split; try assumption; apply C0. Qed.
+
+Lemma lk_trans a b c : lk a b -> lk b c -> lk a c.
+Proof. unfold lk, same_ents. intuition congruence. Qed.
+
+Lemma lk_LInv r r' : lk r r' -> LInv r -> LInv r'.
+Proof.
+  intros (A & B & C0) H Hs. unfold ConfBound. rewrite B.
+  eapply ConfBoundP_same_ents; [exact C0|]. apply H. congruence.
+Qed.
+
+Lemma lk_LogBounded r r' : lk r r' -> LogBounded (r_log r) -> LogBounded (r_log r').
+Proof. intros (_ & _ & H). apply LogBounded_same_ents; exact H. Qed.
+
+(* --- the remaining API functions of Raft --- *)
+
+Lemma on_persist_entries_fr r i t r' : on_persist_entries r i t = Ok r' -> fr r r'.
+Proof.
+  unfold on_persist_entries. intros H. inv_bind H. destruct x as [l' upd].
+  assert (Hl : same_ents (r_log r) l').
+  { unfold maybe_persist in Hx.
+    match type of Hx with (if ?c then _ else _) = _ => destruct c end;
+      [|inversion Hx; apply same_ents_refl].
+    inv_bind Hx. destruct (term_ok_eq x t); inversion Hx; subst; repeat split. }
+  pose proof (set_log_fr r l' Hl) as H0.
+  match type of H with (if ?c then _ else _) = _ => destruct c end;
+    [|inversion H; subst; exact H0].
+  match type of H with match ?g with _ => _ end = _ => destruct g as [pr|] end; [|discriminate].
+  destruct (maybe_update pr i) as [pr' u].
+  eapply fr_trans; [exact H0|]. eapply fr_trans; [apply put_pr_fr|].
+  destruct u; [|inversion H; subst; apply fr_refl].
+  inv_bind H. destruct x as [r1 c]. apply maybe_commit_fr in Hx0.
+  eapply fr_trans; [exact Hx0|].
+  destruct (c && should_bcast_commit r1); [eapply bcast_append_fr; exact H|].
+  inversion H; subst; apply fr_refl.
+Qed.
+
+Lemma on_persist_snap_fr r i r' : on_persist_snap r i = Ok r' -> fr r r'.
+Proof.
+  unfold on_persist_snap. intros H. inv_bind H. inversion H; subst. apply set_log_fr.
+  unfold maybe_persist_snap in Hx.
+  destruct (persisted (r_log r) <? i); [|inversion Hx; apply same_ents_refl].
+  destruct (committed (r_log r) <? i); [discriminate|].
+  destruct (u_offset (unst (r_log r)) <=? i); [discriminate|]. inversion Hx; subst. repeat split.
+Qed.
+
+Lemma raft_apply_conf_change_lk r cc r' ocs : raft_apply_conf_change r cc = Ok (r', ocs) -> lk r r'.
+Proof.
+  unfold raft_apply_conf_change. intros H.
+  match type of H with match ?res with _ => _ end = _ => destruct res as [[c' chs]|e] end.
+  - inv_bind H. destruct x as [r1 cs1]. inversion H; subst. cbn [fst].
+    apply post_conf_change_spec in Hx. destruct Hx as [_ Hf]. apply fr_lk in Hf.
+    eapply lk_trans; [|exact Hf]. repeat split.
+  - inversion H; subst. repeat split.
+Qed.
+
+Lemma load_state_lk r hs r' : load_state r hs = Ok r' -> lk r r'.
+Proof.
+  unfold load_state. intros H.
+  match type of H with (if ?c then _ else _) = _ => destruct c end; [discriminate|].
+  inversion H; subst. repeat split.
+Qed.
+
+Lemma request_snapshot_fr r r' c : request_snapshot r = Ok (r', c) -> fr r r'.
+Proof.
+  unfold request_snapshot. intros H.
+  destruct (is_leader r); [inversion H; apply fr_refl|].
+  destruct (r_leader_id r =? INVALID_ID); [inversion H; apply fr_refl|].
+  match type of H with (if ?c then _ else _) = _ => destruct c end; [inversion H; apply fr_refl|].
+  match type of H with (if ?c then _ else _) = _ => destruct c end; [inversion H; apply fr_refl|].
+  inv_bind H. destruct x; [|discriminate].
+  destruct (r_term r =? a); [|inversion H; apply fr_refl].
+  inv_bind H. inversion H; subst. apply send_request_snapshot_fr in Hx0.
+  eapply fr_trans; [|exact Hx0]. fr_solve.
+Qed.
+
+Lemma ping_fr r r' : ping r = Ok r' -> fr r r'.
+Proof.
+  unfold ping. intros H. destruct (is_leader r); [eapply bcast_heartbeat_fr; exact H|].
+  inversion H; apply fr_refl.
+Qed.
+
+Lemma adjust_max_inflight_msgs_fr r t c r' : adjust_max_inflight_msgs r t c = Ok r' -> fr r r'.
+Proof.
+  unfold adjust_max_inflight_msgs. intros H. destruct (get_pr r t); [|inversion H; apply fr_refl].
+  inv_bind H. inversion H; subst. apply put_pr_fr.
+Qed.
+
+Lemma maybe_free_inflight_buffers_fr r : fr r (maybe_free_inflight_buffers r).
+Proof. unfold maybe_free_inflight_buffers. fr_solve. Qed.
+
+Lemma set_max_apply_unpersisted_log_limit_fr r k : fr r (set_max_apply_unpersisted_log_limit r k).
+Proof. unfold set_max_apply_unpersisted_log_limit. fr_solve. Qed.
+
+Lemma enable_group_commit_fr r e r' : enable_group_commit r e = Ok r' -> fr r r'.
+Proof.
+  unfold enable_group_commit. intros H.
+  set (r0 := r <| r_prs := (r_prs r) <| t_group_commit := e |> |>) in *.
+  assert (H0 : fr r r0) by (unfold r0; fr_solve).
+  destruct (is_leader r0 && negb e); [|inversion H; subst; exact H0].
+  inv_bind H. destruct x as [r1 c]. apply maybe_commit_fr in Hx. cbn [fst snd] in H.
+  eapply fr_trans; [exact H0|]. eapply fr_trans; [exact Hx|].
+  destruct c; [eapply bcast_append_fr; exact H|inversion H; apply fr_refl].
+Qed.
+
+Lemma assign_commit_groups_fr r ids r' : assign_commit_groups r ids = Ok r' -> fr r r'.
+Proof.
+  unfold assign_commit_groups. intros H. inv_bind H.
+  set (r0 := r <| r_prs := (r_prs r) <| t_progress := x |> |>) in *.
+  assert (H0 : fr r r0) by (unfold r0; fr_solve).
+  destruct (is_leader r0 && t_group_commit (r_prs r0)); [|inversion H; subst; exact H0].
+  inv_bind H. destruct x0 as [r1 c]. apply maybe_commit_fr in Hx0. cbn [fst snd] in H.
+  eapply fr_trans; [exact H0|]. eapply fr_trans; [exact Hx0|].
+  destruct c; [eapply bcast_append_fr; exact H|inversion H; apply fr_refl].
+Qed.
+
+Theorem commit_apply_LInv r app r' : commit_apply r app = Ok r' -> LInv r -> LInv r'.
+Proof.
+  unfold commit_apply. intros H Hinv Hs.
+  assert (Hst : r_state r' = r_state r).
+  { pose proof (commit_apply_internal_spec _ _ _ _ H) as (l1 & _ & Hc).
+    destruct (auto_leave_cond r (applied (r_log r)) app).
+    - destruct Hc as (l2 & z & _ & _ & _ & _ & E & _). exact E.
+    - subst r'. reflexivity. }
+  eapply commit_apply_internal_ConfBound; [exact H|left; reflexivity|]. apply Hinv. congruence.
+Qed.
+
+(* --- the RawNode API --- *)
+
+Definition RInv (n : rawnode) : Prop := LInv (rn_raft n).
+Definition RB (n : rawnode) : Prop := LogBounded (r_log (rn_raft n)).
+
+Lemma lift2_step_RInv n m n' c :
+  lift2 n (step (rn_raft n) m) = Ok (n', c) -> RB n -> RInv n -> RInv n'.
+Proof.
+  unfold lift2. intros H Hb Hi. inv_bind H. inversion H; subst. destruct x as [r1 c1].
+  unfold RInv. cbn. eapply step_LInv; eassumption.
+Qed.
+
+Lemma step_fst_RInv n m x :
+  step (rn_raft n) m = Ok x -> RB n -> RInv n -> RInv (n <| rn_raft := fst x |>).
+Proof.
+  intros H Hb Hi. destruct x as [r1 c1]. unfold RInv. cbn. eapply step_LInv; eassumption.
+Qed.
+
+Theorem rn_step_RInv n m n' c : rn_step n m = Ok (n', c) -> RB n -> RInv n -> RInv n'.
+Proof.
+  unfold rn_step. intros H Hb Hi. destruct (is_local_msg (m_type m)); [inversion H; subst; exact Hi|].
+  match type of H with (if ?c then _ else _) = _ => destruct c end;
+    [eapply lift2_step_RInv; eassumption|inversion H; subst; exact Hi].
+Qed.
+
+Theorem rn_tick_RInv n n' b : rn_tick n = Ok (n', b) -> RB n -> RInv n -> RInv n'.
+Proof.
+  unfold rn_tick. intros H Hb Hi. inv_bind H. inversion H; subst. destruct x as [r1 b1].
+  unfold RInv. cbn. eapply tick_LInv; eassumption.
+Qed.
+
+Theorem rn_campaign_RInv n n' c : rn_campaign n = Ok (n', c) -> RB n -> RInv n -> RInv n'.
+Proof. unfold rn_campaign. apply lift2_step_RInv. Qed.
+
+Theorem rn_propose_RInv n ctx data n' c :
+  rn_propose n ctx data = Ok (n', c) -> RB n -> RInv n -> RInv n'.
+Proof. unfold rn_propose. apply lift2_step_RInv. Qed.
+
+Theorem rn_propose_conf_change_RInv n ctx data ty ci n' c :
+  rn_propose_conf_change n ctx data ty ci = Ok (n', c) -> RB n -> RInv n -> RInv n'.
+Proof. unfold rn_propose_conf_change. apply lift2_step_RInv. Qed.
+
+Theorem rn_apply_conf_change_RInv n cc n' ocs :
+  rn_apply_conf_change n cc = Ok (n', ocs) -> RInv n -> RInv n'.
+Proof.
+  unfold rn_apply_conf_change. intros H Hi. inv_bind H. inversion H; subst. destruct x as [r1 o1].
+  unfold RInv. cbn. eapply lk_LInv; [eapply raft_apply_conf_change_lk; eassumption|exact Hi].
+Qed.
+
+Theorem rn_ping_RInv n n' : rn_ping n = Ok n' -> RInv n -> RInv n'.
+Proof.
+  unfold rn_ping, lift. intros H Hi. inv_bind H. inversion H; subst.
+  unfold RInv. cbn. eapply fr_LInv; [eapply ping_fr; eassumption|exact Hi].
+Qed.
+
+Lemma reduce_uncommitted_size_fr r ce : fr r (reduce_uncommitted_size r ce).
+Proof.
+  unfold reduce_uncommitted_size. destruct (negb (is_leader r)); [apply fr_refl|].
+  match goal with |- context [if ?c then _ else _] => destruct c end; [apply fr_refl|].
+  match goal with |- context [if ?c then _ else _] => destruct c end; fr_solve.
+Qed.
+
+Lemma gen_light_ready_fr n n' lr :
+  gen_light_ready n = Ok (n', lr) -> fr (rn_raft n) (rn_raft n').
+Proof.
+  unfold gen_light_ready. intros H. inv_bind H. inv_bind H. inversion H; subst. cbn.
+  eapply fr_trans; [apply reduce_uncommitted_size_fr|apply set_msgs_fr].
+Qed.
+
+Theorem rn_ready_fr n n' rd : rn_ready n = Ok (n', rd) -> fr (rn_raft n) (rn_raft n').
+Proof.
+  unfold rn_ready. intros H. inv_bind H. inv_bind H. destruct x0 as [[[snap csi] rec_snap] ms2].
+  inv_bind H. destruct x0 as [n2 light]. inversion H; subst. cbn.
+  apply gen_light_ready_fr in Hx1. cbn in Hx1. eapply fr_trans; [|exact Hx1]. fr_solve.
+Qed.
+
+(* persisting (stable_entries / stable_snap) only drops unstable entries *)
+Definition ents_shrink (l l' : raft_log) : Prop :=
+  (forall e, all_ents l' e -> all_ents l e) /\ applied l' = applied l.
+
+Lemma ConfBoundP_shrink l l' p : ents_shrink l l' -> ConfBoundP l p -> ConfBoundP l' p.
+Proof. intros [A B] H e He Hc Ha. rewrite B in Ha. apply H; auto. Qed.
+
+Lemma stable_snap_shrink l i l' : stable_snap l i = Ok l' -> ents_shrink l l'.
+Proof.
+  unfold stable_snap, u_stable_snap. intros H. inv_bind H. inversion H; subst.
+  destruct (u_snapshot (unst l)); [|discriminate].
+  destruct (negb (s_index s =? i)); [discriminate|]. inversion Hx; subst.
+  split; [|reflexivity]. intros e He. exact He.
+Qed.
+
+Lemma stable_entries_shrink l i t l' : stable_entries l i t = Ok l' -> ents_shrink l l'.
+Proof.
+  unfold stable_entries, u_stable_entries. intros H. inv_bind H. inversion H; subst.
+  destruct (u_snapshot (unst l)); [discriminate|].
+  destruct (u_entries (unst l)) eqn:Eu; [discriminate|].
+  match type of Hx with (if ?c then _ else _) = _ => destruct c end; [discriminate|].
+  inversion Hx; subst. split; [|reflexivity].
+  intros e1 [He|He]; [destruct He|right; exact He].
+Qed.
+
+Lemma ents_shrink_trans a b c : ents_shrink a b -> ents_shrink b c -> ents_shrink a c.
+Proof. intros [A1 A2] [B1 B2]. split; [auto|congruence]. Qed.
+
+Lemma ents_shrink_refl a : ents_shrink a a.
+Proof. split; auto. Qed.
+
+Theorem commit_ready_RInv n rd n' : commit_ready n rd = Ok n' -> RInv n -> RInv n'.
+Proof.
+  unfold commit_ready. intros H Hi.
+  set (n0 := match rd_hs rd with
+             | Some hs => (match rd_ss rd with Some ss => n <| rn_prev_ss := ss |> | None => n end)
+                            <| rn_prev_hs := hs |>
+             | None => match rd_ss rd with Some ss => n <| rn_prev_ss := ss |> | None => n end
+             end) in *.
+  assert (Hr0 : rn_raft n0 = rn_raft n) by (unfold n0; destruct (rd_hs rd), (rd_ss rd); reflexivity).
+  destruct (rn_records n0); [discriminate|].
+  match type of H with (if ?c then _ else _) = _ => destruct c end; [discriminate|].
+  inv_bind H. inv_bind H. inversion H; subst. unfold RInv. cbn. rewrite Hr0 in *.
+  assert (Hsh : ents_shrink (r_log (rn_raft n)) x0).
+  { eapply ents_shrink_trans with (b := x).
+    - destruct (rr_snapshot _) as [[i t]|]; [eapply stable_snap_shrink; exact Hx|].
+      inversion Hx; subst; apply ents_shrink_refl.
+    - destruct (rr_last_entry _) as [[i t]|]; [eapply stable_entries_shrink; exact Hx0|].
+      inversion Hx0; subst; apply ents_shrink_refl. }
+  intros Hs. cbn in Hs. unfold ConfBound. cbn.
+  eapply ConfBoundP_shrink; [exact Hsh|]. apply Hi. exact Hs.
+Qed.
+
+Theorem rn_on_persist_ready_fr n k n' :
+  rn_on_persist_ready n k = Ok n' -> fr (rn_raft n) (rn_raft n').
+Proof.
+  unfold rn_on_persist_ready. intros H.
+  destruct (fold_records (rn_records n) k 0 0 0) as [[[recs index] t] snap_index].
+  inv_bind H. inv_bind H. inversion H; subst. cbn. cbn in Hx, Hx0.
+  eapply fr_trans with (b := x).
+  - destruct (negb (snap_index =? 0)); [eapply on_persist_snap_fr; exact Hx|].
+    inversion Hx; subst; apply fr_refl.
+  - destruct (negb (index =? 0)); [eapply on_persist_entries_fr; exact Hx0|].
+    inversion Hx0; subst; apply fr_refl.
+Qed.
+
+Theorem rn_advance_append_RInv n rd n' lr :
+  rn_advance_append n rd = Ok (n', lr) -> RInv n -> RInv n'.
+Proof.
+  unfold rn_advance_append. intros H Hi. inv_bind H. inv_bind H. inv_bind H.
+  destruct x1 as [n3 light].
+  apply commit_ready_RInv in Hx; [|exact Hi]. apply rn_on_persist_ready_fr in Hx0.
+  apply gen_light_ready_fr in Hx1.
+  assert (H3 : RInv n3).
+  { unfold RInv in *. eapply fr_LInv; [exact Hx1|]. eapply fr_LInv; [exact Hx0|exact Hx]. }
+  match type of H with (if ?c then _ else _) = _ => destruct c end; [discriminate|].
+  inv_bind H. destruct x1 as [n4 ci].
+  assert (H4 : rn_raft n4 = rn_raft n3).
+  { match type of Hx2 with (if ?c then _ else _) = _ => destruct c end.
+    - inversion Hx2; subst. reflexivity.
+    - match type of Hx2 with (if ?c then _ else _) = _ => destruct c end; [discriminate|].
+      inversion Hx2; subst. reflexivity. }
+  match type of H with (if ?c then _ else _) = _ => destruct c end; [discriminate|].
+  inversion H; subst. unfold RInv in *. rewrite H4. exact H3.
+Qed.
+
+Theorem rn_advance_apply_to_RInv n app n' : rn_advance_apply_to n app = Ok n' -> RInv n -> RInv n'.
+Proof.
+  unfold rn_advance_apply_to, lift. intros H Hi. inv_bind H. inversion H; subst.
+  unfold RInv. cbn. eapply commit_apply_LInv; eassumption.
+Qed.
+
+Theorem rn_advance_apply_RInv n n' : rn_advance_apply n = Ok n' -> RInv n -> RInv n'.
+Proof. unfold rn_advance_apply. apply rn_advance_apply_to_RInv. Qed.
+
+Theorem rn_advance_RInv n rd n' lr : rn_advance n rd = Ok (n', lr) -> RInv n -> RInv n'.
+Proof.
+  unfold rn_advance. intros H Hi. inv_bind H. inv_bind H. inversion H; subst. destruct x as [n1 l1].
+  eapply rn_advance_apply_to_RInv; [exact Hx0|]. eapply rn_advance_append_RInv; eassumption.
+Qed.
+
+Theorem rn_report_unreachable_RInv n id n' :
+  rn_report_unreachable n id = Ok n' -> RB n -> RInv n -> RInv n'.
+Proof.
+  unfold rn_report_unreachable. intros H Hb Hi. inv_bind H. inversion H; subst.
+  eapply step_fst_RInv; eassumption.
+Qed.
+
+Theorem rn_report_snapshot_RInv n id f n' :
+  rn_report_snapshot n id f = Ok n' -> RB n -> RInv n -> RInv n'.
+Proof.
+  unfold rn_report_snapshot. intros H Hb Hi. inv_bind H. inversion H; subst.
+  eapply step_fst_RInv; eassumption.
+Qed.
+
+Theorem rn_request_snapshot_RInv n n' c : rn_request_snapshot n = Ok (n', c) -> RInv n -> RInv n'.
+Proof.
+  unfold rn_request_snapshot, lift2. intros H Hi. inv_bind H. inversion H; subst.
+  destruct x as [r1 c1]. unfold RInv. cbn.
+  eapply fr_LInv; [eapply request_snapshot_fr; eassumption|exact Hi].
+Qed.
+
+Theorem rn_transfer_leader_RInv n t n' :
+  rn_transfer_leader n t = Ok n' -> RB n -> RInv n -> RInv n'.
+Proof.
+  unfold rn_transfer_leader. intros H Hb Hi. inv_bind H. inversion H; subst.
+  eapply step_fst_RInv; eassumption.
+Qed.
+
+Theorem rn_read_index_RInv n ctx n' : rn_read_index n ctx = Ok n' -> RB n -> RInv n -> RInv n'.
+Proof.
+  unfold rn_read_index. intros H Hb Hi. inv_bind H. inversion H; subst.
+  eapply step_fst_RInv; eassumption.
 Qed.
 
 (* ------------------------------------------------------------------ *)
